@@ -320,6 +320,7 @@ type simClient struct {
 func (c *simClient) Broadcast(ctx context.Context, hu *objectmessages.HeadUpdate) error {
 	s := c.sim
 	s.advertised[c.me] = append(s.advertised[c.me], append([]string(nil), hu.Update.Heads()...))
+	carried := false
 	for p := range s.Replicas {
 		if p == c.me {
 			continue
@@ -330,9 +331,25 @@ func (c *simClient) Broadcast(ctx context.Context, hu *objectmessages.HeadUpdate
 		if err != nil {
 			return err
 		}
-		b, err := pm.(*spacesyncproto.ObjectSyncMessage).MarshalVT()
+		osm := pm.(*spacesyncproto.ObjectSyncMessage)
+		b, err := osm.MarshalVT()
 		if err != nil {
 			return err
+		}
+		if !carried {
+			// the changes the head update carries are advertised too: the sender vouches for them
+			carried = true
+			tsm := &treechangeproto.TreeSyncMessage{}
+			if tsm.UnmarshalVT(osm.Payload) == nil {
+				if up := tsm.GetContent().GetHeadUpdate(); up != nil && len(up.Changes) > 0 {
+					ids := make([]string, 0, len(up.Changes))
+					for _, ch := range up.Changes {
+						ids = append(ids, ch.Id)
+					}
+					s.advertised[c.me] = append(s.advertised[c.me], ids)
+					s.Counters["advertised-carried-changes"] += len(ids)
+				}
+			}
 		}
 		s.push(&Msg{Kind: HeadUpdate, From: c.me, To: p, ObjectId: hu.ObjectId(), Payload: b})
 	}
